@@ -135,6 +135,10 @@ impl Observer for SysObserver {
                                 if vec_digest(cpu, Some(v)) != c.vec_digest {
                                     return Err(Failure::new("c14.set_handler", format!("iteration {}: set_handler({}, {:06x}) changed another vector's entry", p.iter, v, c.arg1)));
                                 }
+                                let entry = rd32(cpu, 4 * v);
+                                if entry & 0x00ff_ffff != c.arg1 & 0x00ff_ffff {
+                                    return Err(Failure::new("c14.set_handler", format!("iteration {}: after set_handler({}, {:06x}) the entry of vector {} is {:08x}: an interrupt would not enter the handler", p.iter, v, c.arg1 & 0x00ff_ffff, v, entry)));
+                                }
                                 self.installed.insert(v as u8, c.arg1 & 0x00ff_ffff);
                                 self.installed_by_call.insert(v as u8, true);
                                 self.sethandler_valid += 1;
@@ -333,6 +337,7 @@ impl Property for C14 {
             vec_top: rng.u8(),
             sub_delay: 1,
             init_ccr: Some(rng.u8() & 0x7f),
+            stack_off: if rng.chance(1, 2) { 0 } else { 4 * rng.below(64) as u16 },
         };
         let est = super::c10::estimate_iters(&guest);
         let cfg = SysCfg { wait_start: false, clock: gen_clock_model(rng), clock_seed: rng.next_u64(), step_cap: est * 4 + 10_000 };
